@@ -47,6 +47,19 @@ type Contract struct {
 	Decreases *Clause // function-level measure (recursion)
 	Emits     []EmitSpec // ghost events this function appends (assumed at call sites)
 	WF       []string // heap specs for which heap well-formedness axioms are emitted
+	Ghosts   []GhostDef // ghost integer constants (see "ghost" in loadFile)
+	Partial  bool // partial correctness: self-recursion without a measure is reported instead of being an obligation
+}
+
+// GhostDef: "ghost B int" declares a ghost integer constant the clauses of the contract may mention. The
+// function is verified for an arbitrary value of it; a callee's ghost of the same name denotes the caller's
+// (binding by name), so a contract quantifies over the value and the caller picks the instance.
+// "ghost B int = <expr>" (top-level functions) fixes the value to <expr> evaluated at entry; such a contract
+// must not mention the ghost in requires/ensures, because callers would assume them for their own value.
+type GhostDef struct {
+	Name string
+	Init SExpr
+	Text string
 }
 
 // EmitSpec: "emits <seq> <expr>" — a call of the function appends <expr> to the ghost sequence <seq>.
@@ -103,6 +116,7 @@ type ContractSet struct {
 	Order []string
 	Files []string
 	Axioms []AxiomDef
+	GhostNames map[string]bool // every ghost constant declared by some contract
 }
 
 type AxiomDef struct {
@@ -320,6 +334,36 @@ func (cs *ContractSet) loadFile(path string) error {
 					cur.WF = append(cur.WF, m)
 				}
 			}
+		case "ghost":
+			if cur == nil {
+				return fmt.Errorf("%s:%d: ghost outside func", path, r.line)
+			}
+			decl, init := r.text, ""
+			if i := strings.Index(r.text, "="); i >= 0 {
+				decl, init = strings.TrimSpace(r.text[:i]), strings.TrimSpace(r.text[i+1:])
+			}
+			fs := strings.Fields(decl)
+			if len(fs) != 2 || fs[1] != "int" {
+				return fmt.Errorf("%s:%d: ghost <name> int [= <expr>]", path, r.line)
+			}
+			gd := GhostDef{Name: fs[0], Text: r.text}
+			if init != "" {
+				e, err := ParseSpec(init)
+				if err != nil {
+					return fmt.Errorf("%s:%d: %v", path, r.line, err)
+				}
+				gd.Init = e
+			}
+			cur.Ghosts = append(cur.Ghosts, gd)
+			if cs.GhostNames == nil {
+				cs.GhostNames = map[string]bool{}
+			}
+			cs.GhostNames[fs[0]] = true
+		case "partial":
+			if cur == nil {
+				return fmt.Errorf("%s:%d: partial outside func", path, r.line)
+			}
+			cur.Partial = true
 		case "inline":
 			cur.Inline = true
 		case "trusted":
